@@ -262,6 +262,10 @@ class Interp:
         raise PyExc('NameError', name)
 
     def lookup_global(self, module, name):
+        if module is self.env.spec_module:
+            sp = self.env.spec_builtin(name)
+            if sp is not None:
+                return sp
         if module is not None:
             key = (module.dotted, name)
             if key in self.gcache:
